@@ -152,6 +152,7 @@ class TOPDirector(SectionLineParser):
         if line == '#endif':
             if self.current_itp:
                 self.current_itp.append(line)
+                self.current_meta = None
             elif self.current_meta is None:
                 raise IOError("Your #ifdef section is orderd incorrectly."
                               "At line {} I read {} but I haven not read"
@@ -162,6 +163,10 @@ class TOPDirector(SectionLineParser):
         elif line.startswith("#else"):
             if self.current_itp:
                 self.current_itp.append(line)
+                if self.current_meta is not None:
+                    inverse = {"ifdef": "ifndef", "ifndef": "ifdef"}
+                    self.current_meta = {'tag': self.current_meta["tag"],
+                                         'condition': inverse[self.current_meta["condition"]]}
             elif self.current_meta is None:
                raise IOError("Your #ifdef section is orderd incorrectly."
                              "At line {} I read {} but I haven not read"
@@ -175,6 +180,9 @@ class TOPDirector(SectionLineParser):
         elif line.startswith("#ifdef") or line.startswith("#ifndef"):
             if self.current_itp:
                 self.current_itp.append(line)
+                condition, tag = line.split()
+                self.current_meta = {'tag': tag,
+                                     'condition': condition.replace("#", "")}
             elif self.current_meta is None:
                 condition, tag = line.split()
                 self.current_meta = {'tag': tag,
